@@ -16,14 +16,14 @@ import (
 )
 
 type jop struct {
-	T      string      `json:"t"` // merge | replace | replacemany | split | splitsv | splitsvs | down
-	Target uint64      `json:"target,omitempty"`
-	New    uint64      `json:"new,omitempty"`
-	Remain uint64      `json:"remain,omitempty"`
-	Merged []uint64    `json:"merged,omitempty"`
-	Map    [][2]uint64 `json:"map,omitempty"`
-	RLEs   [][4]int32  `json:"rles,omitempty"`
-	SV     [][3]uint64 `json:"sv,omitempty"` // label, split, remain
+	T      string        `json:"t"` // merge | replace | replacemany | split | splitsv | splitsvs | down
+	Target uint64        `json:"target,omitempty"`
+	New    uint64        `json:"new,omitempty"`
+	Remain uint64        `json:"remain,omitempty"`
+	Merged []uint64      `json:"merged,omitempty"`
+	Map    [][2]uint64   `json:"map,omitempty"`
+	RLEs   [][4]int32    `json:"rles,omitempty"`
+	SV     [][3]uint64   `json:"sv,omitempty"`   // label, split, remain
 	Octs   [][]blk.Paint `json:"octs,omitempty"` // down: eight octant arrays, null = nil octant
 }
 
@@ -245,7 +245,6 @@ func main() {
 
 	g2 := [3]int{2, 2, 2}
 	full := [6]int{0, 0, 0, 16, 16, 16}
-	row := func(bc [3]int32, x0, y, z, n int32) [4]int32 { return [4]int32{bc[0]*16 + x0, bc[1]*16 + y, bc[2]*16 + z, n} }
 
 	// ---- corpus ----
 	// the recorded defect: labels 1,2,3 in one sub-block; merge 2->1, then replace 1 by 9 (true count 384)
@@ -302,9 +301,31 @@ func main() {
 		{T: "replace", Target: 4, New: 8}, {T: "merge", Target: 2, Merged: []uint64{8}}, {T: "replacemany", Map: [][2]uint64{{2, 3}}},
 		{T: "split", Target: 3, New: 11, RLEs: [][4]int32{{0, 0, 0, 16}, {3, 1, 0, 5}}}, {T: "split", Target: 77, New: 1, RLEs: [][4]int32{{0, 0, 0, 4}}}}})
 
-	nChains := 14
+	// non-cubic sizes shared with the C14 driver: X<Y, X>Z, all different
+	// (a block has at least 2 sub-blocks per axis; the quick tier takes the smallest such shapes)
+	ncSizes := blk.NonCubic(o.Thorough())
+	// Downres onto a non-cubic receiver (octant offsets differ per axis)
+	for k, g := range [][3]int{ncSizes[int(o.Seed)%3], ncSizes[3+int(o.Seed)%2]} {
+		fg := [6]int{0, 0, 0, 8 * g[0], 8 * g[1], 8 * g[2]}
+		octs := make([][]blk.Paint, 8)
+		octs[(3+k)%8] = []blk.Paint{blk.Hash(fg, 2, 21, []uint64{0, 1, 8})}
+		ops := []jop{{T: "down", Octs: octs}}
+		if k == 0 {
+			octs[6] = []blk.Paint{blk.Fill(6)}
+			ops = append(ops, jop{T: "merge", Target: 1, Merged: []uint64{8}})
+		}
+		addChain(jcase{Kind: "chain", G: g, Paints: []blk.Paint{blk.Hash(fg, 4, 5, []uint64{1, 2, 3})}, Ops: ops})
+	}
+	// SplitSupervoxel whose split id (and remain id) already label voxels of the block; also for a block
+	// outside the split (no runs)
+	addChain(jcase{Kind: "chain", G: g2, Paints: []blk.Paint{blk.Fill(1), blk.Box([6]int{0, 0, 8, 16, 16, 12}, 2), blk.Box([6]int{0, 0, 12, 16, 16, 16}, 3)},
+		Ops: []jop{{T: "splitsv", Target: 1, New: 2, Remain: 3, RLEs: [][4]int32{{0, 0, 0, 16}, {2, 5, 1, 9}}},
+			{T: "splitsv", Target: 2, New: 3, Remain: 3, RLEs: nil}, {T: "split", Target: 3, New: 7, RLEs: [][4]int32{{0, 0, 15, 16}}}}})
+	nChains := 12
+	nRand := 3 // quick tier: random chains on the three smallest non-cubic shapes
 	if o.Thorough() {
 		nChains = 150
+		nRand = 8
 	}
 	if o.N > 0 {
 		nChains = o.N
@@ -312,6 +333,16 @@ func main() {
 	bcs := [][3]int32{{0, 0, 0}, {1, 2, 3}, {-1, -2, 0}, {0, 0, -1}}
 	for i := 0; i < nChains; i++ {
 		bc := bcs[rng.Intn(len(bcs))]
+		// block size: mostly 16^3, every fifth chain a non-cubic block of the sweep shared with C14
+		g := g2
+		if i%5 == 3 {
+			g = ncSizes[(i/5+int(o.Seed))%nRand]
+		}
+		dx, dy, dz := int32(8*g[0]), int32(8*g[1]), int32(8*g[2])
+		full := [6]int{0, 0, 0, int(dx), int(dy), int(dz)}
+		row := func(bc [3]int32, x0, y, z, n int32) [4]int32 {
+			return [4]int32{bc[0]*dx + x0, bc[1]*dy + y, bc[2]*dz + z, n}
+		}
 		npal := 2 + rng.Intn(6)
 		pal := make([]uint64, npal)
 		for j := range pal {
@@ -325,9 +356,9 @@ func main() {
 		}
 		ps := []blk.Paint{blk.Hash(full, uint64(rng.Pick(1, 2, 4)), uint64(rng.Intn(1<<16)), pal)}
 		if rng.Bool() {
-			ps = append(ps, blk.Box([6]int{8, 8, 8, 16, 16, 16}, pal[rng.Intn(npal)])) // a one-label sub-block
+			ps = append(ps, blk.Box([6]int{int(dx) - 8, int(dy) - 8, int(dz) - 8, int(dx), int(dy), int(dz)}, pal[rng.Intn(npal)])) // a one-label sub-block
 		}
-		first := blk.Expand(16, 16, 16, ps)[0] // the label under the very first sub-block slot
+		first := blk.Expand(int(dx), int(dy), int(dz), ps)[0] // the label under the very first sub-block slot
 		pickLabel := func() uint64 {
 			if rng.Chance(0.15) {
 				return uint64(100 + rng.Intn(5)) // absent
@@ -337,14 +368,23 @@ func main() {
 			}
 			return pal[rng.Intn(npal)]
 		}
+		// an id for the result of a split: fresh, or (40 %) a label the block already holds, never the target
+		otherID := func(target, fresh uint64) uint64 {
+			if rng.Chance(0.4) {
+				if l := pal[rng.Intn(npal)]; l != target {
+					return l
+				}
+			}
+			return fresh
+		}
 		randRLEs := func() [][4]int32 {
 			n := rng.Intn(5)
 			var rs [][4]int32
 			switch rng.Intn(6) {
 			case 0: // whole block
-				for z := int32(0); z < 16; z++ {
-					for y := int32(0); y < 16; y++ {
-						rs = append(rs, row(bc, 0, y, z, 16))
+				for z := int32(0); z < dz; z++ {
+					for y := int32(0); y < dy; y++ {
+						rs = append(rs, row(bc, 0, y, z, dx))
 					}
 				}
 				return rs
@@ -352,8 +392,8 @@ func main() {
 				return nil
 			}
 			for j := 0; j <= n; j++ {
-				x0 := int32(rng.Intn(16))
-				rs = append(rs, row(bc, x0, int32(rng.Intn(16)), int32(rng.Intn(16)), int32(1+rng.Intn(int(16-x0)))))
+				x0 := int32(rng.Intn(int(dx)))
+				rs = append(rs, row(bc, x0, int32(rng.Intn(int(dy))), int32(rng.Intn(int(dz))), int32(1+rng.Intn(int(dx-x0)))))
 			}
 			return rs
 		}
@@ -434,13 +474,21 @@ func main() {
 				}
 				ops = append(ops, jop{T: "replacemany", Map: mp})
 			case 5:
-				ops = append(ops, jop{T: "split", Target: pickLabel(), New: uint64(400 + j), RLEs: randRLEs()})
+				t := pickLabel()
+				ops = append(ops, jop{T: "split", Target: t, New: otherID(t, uint64(400+j)), RLEs: randRLEs()})
 			default:
 				if rng.Bool() {
-					ops = append(ops, jop{T: "splitsv", Target: pickLabel(), New: uint64(500 + j), Remain: uint64(600 + j), RLEs: randRLEs()})
+					// split and remain ids: fresh, or labels the block already holds, or equal to each other
+					t := pickLabel()
+					nl := otherID(t, uint64(500+j))
+					rm := otherID(t, uint64(600+j))
+					if rng.Chance(0.2) {
+						rm = nl
+					}
+					ops = append(ops, jop{T: "splitsv", Target: t, New: nl, Remain: rm, RLEs: randRLEs()})
 				} else {
 					a := pickLabel()
-					sv := [][3]uint64{{a, uint64(700 + j), uint64(800 + j)}}
+					sv := [][3]uint64{{a, otherID(a, uint64(700+j)), otherID(a, uint64(800+j))}}
 					if b := pickLabel(); b != a {
 						sv = append(sv, [3]uint64{b, uint64(710 + j), uint64(810 + j)})
 					}
@@ -451,10 +499,17 @@ func main() {
 		sparse := false
 		if rng.Chance(0.25) {
 			// an all-zero slab: its sub-blocks are left uninitialised in a client-made block
-			ps = append(ps, blk.Box([6]int{0, 0, 0, 16, 16, 8}, 0))
+			slab := [6]int{0, 0, 0, int(dx), int(dy), 8}
+			if dz == 8 {
+				slab = [6]int{0, 0, 0, int(dx), 8, 8}
+				if dy == 8 {
+					slab = [6]int{0, 0, 0, 8, 8, 8}
+				}
+			}
+			ps = append(ps, blk.Box(slab, 0))
 			sparse = true
 		}
-		addChain(jcase{Kind: "chain", G: g2, Paints: ps, BC: bc, Ops: ops, Sparse: sparse})
+		addChain(jcase{Kind: "chain", G: g, Paints: ps, BC: bc, Ops: ops, Sparse: sparse})
 	}
 
 	run.Finish("c10case",
